@@ -339,6 +339,31 @@ pub fn run(args: &Args) -> i32 {
 	ev.set("odd_tlv_ignored", odd_ok);
 	ev.set("even_tlv_rejected", even_rej);
 	ev.set("trailing_stream_not_located", not_probed);
+	// scorer and output sweeper: every operation sequence up to a depth bound
+	if args.opt("only").is_none() || args.opt("only") == Some("aux") {
+		let (st, av) = crate::checks::c12_aux::run_aux(tier.is_thorough(), args.threads);
+		ev.set("scorer_states", st.scorer_states);
+		ev.set("scorer_depth", st.depth_scorer as u64);
+		ev.set("scorer_lookahead_comparisons", st.scorer_lookaheads);
+		ev.set("scorer_distinct_observations", st.scorer_distinct_observations);
+		ev.set("scorer_tlv_probes", st.scorer_tlv_probes);
+		ev.set("sweeper_states", st.sweeper_states);
+		ev.set("sweeper_depth", st.depth_sweeper as u64);
+		ev.set("sweeper_states_written_and_reread", st.sweeper_states_written);
+		ev.set("sweeper_lookahead_comparisons", st.sweeper_lookaheads);
+		ev.set("sweeper_distinct_observations", st.sweeper_distinct_observations);
+		ev.set("sweeper_tlv_probes", st.sweeper_tlv_probes);
+		if st.scorer_distinct_observations < 10 || st.sweeper_distinct_observations < 10 || st.sweeper_states_written == 0 {
+			mc_common::cli::die("vacuity guard: scorer / sweeper exploration reached too few distinct states");
+		}
+		r.violations.extend(av);
+		if args.opt("only") == Some("aux") {
+			ev.set("states", st.scorer_states + st.sweeper_states);
+			ev.set("transitions", st.scorer_lookaheads + st.sweeper_lookaheads);
+			ev.set("traces_validated_against_impl", st.scorer_states + st.sweeper_states);
+		}
+		ev.sample(json!({"aux": "scorer: every sequence of <= depth operations from {pay/probe x success/fail-at-hop x 3 paths x 2 amounts, +1h, +40d}; sweeper: every sequence of <= depth operations from {track o0, track o1, track o1 delayed, sweep, connect, connect+sweep-tx, confirm-style connect+sweep-tx, disconnect, jump 4100, unconfirm}"}), 8);
+	}
 	if args.opt("only").is_none() {
 		crate::runner::require_witnesses(&mut ev, &["c12-monitor-roundtrip", "c12-update-roundtrip-and-apply", "c12-manager-roundtrip", "crash-restart"]);
 		if truncs == 0 || odd_ok == 0 || even_rej == 0 {
@@ -347,7 +372,8 @@ pub fn run(args: &Args) -> i32 {
 	} else {
 		ev.set("witnesses", json!(crate::runner::witnesses()));
 	}
-	ev.assume("NetworkGraph round trips are checked at every reached graph state by the C17 engine; ProbabilisticScorer and OutputSweeper histories are not covered by this check");
+	ev.assume("NetworkGraph round trips are checked at every reached graph state by the C17 engine");
+	ev.assume("scorer: 3-channel graph, 30 operations (payment / probe success and failure at each hop of 3 paths x 2 amounts, two time jumps), monotone clock; sweeper: 10 operations (track 2 static outputs with / without delay, sweep, Listen / Confirm block connection with or without the sweep transaction, disconnect, 4100-block jump, transaction_unconfirmed), real KeysManager as spender; the sweeper is compared in the states in which it wrote itself to its store");
 	ev.assume("behavioural equivalence of a re-read manager is judged by rebuilding the node from bytes at every point of the flows and requiring the flow to reach the same correct end (C10 oracles), allowing for the peer disconnection that writing implies");
 	mc_common::findings::conclude("C12", &r.violations, &mut ev)
 }
